@@ -529,7 +529,7 @@ def gen_dead_oil(r, nmax=8):
     return comp, ms / ms.sum()
 
 
-def blowout_case(ctx, r, profiles, i, force=None, stratum=None):
+def blowout_case(ctx, r, profiles, i, force=None, stratum=None, preset=None):
     """force = 'user-absent-gas': user size distribution with gas bins at GOR 0 (absent gas phase)"""
     from tamoc import blowout, dbm_utilities
     comp, ms = gen_dead_oil(r)
@@ -552,11 +552,17 @@ def blowout_case(ctx, r, profiles, i, force=None, stratum=None):
         gor, mode, z0 = 0., 'user', 800.
         comp, ms = ['n-hexane', 'n-heptane', 'benzene', 'toluene', 'n-decane'], np.array([0.1, 0.2, 0.2, 0.3, 0.2])
         ng, no = 2, 3
-    elif (stratum or '').endswith('-user') or (stratum is None and r.random() < 0.3):
+    elif (stratum or '').endswith('-user') or (stratum is None and preset is None and r.random() < 0.3):
         mode = 'user'
+    if preset is not None:
+        # a release placed on purpose (e.g. just above the bubble point): built-in size model
+        comp, ms, gor, z0, ip, q_oil, d0, ca = (preset[k] for k in ('composition', 'masses', 'gor', 'z0', 'ip', 'q_oil', 'd0', 'ca'))
+        ms = np.array(ms)
+        prf = profiles[ip][0]
+        mode = 'psm'
     case = {'kind': 'blowout', 'mode': mode, 'profile': profiles[ip][1], 'z0': z0, 'd0': d0, 'composition': comp,
             'masses': ms.tolist(), 'q_oil': q_oil, 'gor': gor, 'num_gas_elements': ng, 'num_oil_elements': no, 'ca': ca,
-            'forced': force}
+            'forced': force, 'placed': (preset or {}).get('placed')}
     sub = {'composition': list(comp), 'masses': ms.copy()}
     ca_list = ['nitrogen', 'oxygen', 'argon', 'carbon_dioxide'] if ca == 'all' else list(ca)
     with silence(), np.errstate(all='ignore'):
@@ -588,6 +594,59 @@ def blowout_case(ctx, r, profiles, i, force=None, stratum=None):
                  'd_gas': fl(b.d_gas), 'vf_gas': fl(b.vf_gas), 'd_liq': fl(b.d_liq), 'vf_liq': fl(b.vf_liq),
                  'm0': [fl(p.m0) for p in b.disp_phases], 'nb0': [float(p.nb0) for p in b.disp_phases]})
     return case
+
+
+def void_fraction(oil, mflux, prf, z):
+    """gas volume fraction of the release flash at depth z (the flash Blowout._update does: ambient T and P at z)"""
+    Ta, Sa, P = [float(v) for v in prf.get_values(z, ['temperature', 'salinity', 'pressure'])]
+    with np.errstate(all='ignore'):
+        m, xi, K = oil.equilibrium(mflux, Ta, P)
+        mg, ml = float(np.sum(m[0, :])), float(np.sum(m[1, :]))
+        if mg <= 0.:
+            return 0.
+        if ml <= 0.:
+            return 1.
+        vg = mg / float(oil.density(m[0, :], Ta, P)[0, 0])
+        vl = ml / float(oil.density(m[1, :], Ta, P)[1, 0])
+    return vg / (vg + vl)
+
+
+def bubble_point_presets(ctx, r, profiles, targets):
+    """a random live oil; by bisection on the release depth the depths at which the release flash holds free gas with the
+    target void fractions (just above the bubble-point depth); also the depth just below it (no free gas)"""
+    from tamoc import dbm_utilities
+    for attempt in range(6):
+        comp, ms = gen_dead_oil(r, nmax=6)
+        gor = 10 ** r.uniform(2.5, 3.3)
+        ip = r.randrange(len(profiles))
+        prf = profiles[ip][0]
+        q_oil = 10 ** r.uniform(3.5, 5.)
+        ca = r.choice([[], 'all'])
+        ca_list = ['nitrogen', 'oxygen', 'argon', 'carbon_dioxide'] if ca == 'all' else []
+        with silence(), np.errstate(all='ignore'):
+            oil, mflux = dbm_utilities.get_oil({'composition': list(comp), 'masses': ms.copy()}, q_oil, gor, ca_list, 1)
+        if not np.all(np.isfinite(mflux)):
+            continue
+        zlo, zhi = 50., 3000.
+        if not (void_fraction(oil, mflux, prf, zlo) > max(targets) and void_fraction(oil, mflux, prf, zhi) == 0.):
+            continue            # bubble point outside 50-3000 m: draw another oil / GOR
+        out = []
+        for tv in targets:
+            a, b = zlo, zhi      # void(a) > tv >= void(b); the void fraction decreases with depth
+            for _ in range(40):
+                mid = 0.5 * (a + b)
+                if void_fraction(oil, mflux, prf, mid) > tv:
+                    a = mid
+                else:
+                    b = mid
+                if b - a < 1e-3:
+                    break
+            z = a if tv > 0. else b
+            out.append({'composition': comp, 'masses': ms.tolist(), 'gor': gor, 'z0': z, 'ip': ip, 'q_oil': q_oil,
+                        'd0': r.uniform(0.05, 0.3), 'ca': ca,
+                        'placed': {'target_void': tv, 'void': void_fraction(oil, mflux, prf, z)}})
+        return out
+    return []
 
 
 def blowout_predicates(ctx, c, worst):
@@ -626,6 +685,15 @@ def blowout_predicates(ctx, c, worst):
             absent = []
     else:
         absent = []
+    # a phase that the release flash finds present must have size bins (otherwise its mass is silently dropped)
+    for ph, k, nb in (('gas', 0, nG), ('liquid', 1, nL)):
+        if nb == 0 and np.sum(m[k, :]) > 0.:
+            ctx.violation('blowout-phase-without-bins',
+                          'the release flash holds a %s phase (%.3g kg/s of %.3g kg/s) but the blowout has no %s size bins: its mass '
+                          'is dropped and the bin fluxes fall short of mass_flux' % (ph, float(np.sum(m[k, :])), scale, ph),
+                          dict(rep, phase=ph, phase_mass=float(np.sum(m[k, :])), placed=c.get('placed'),
+                               shortfall=(mflux - tot).tolist()))
+            return
     e = float(np.max(np.abs(tot - mflux))) / scale
     if math.isfinite(e):
         worst['blowout'] = max(worst['blowout'], e)
@@ -947,6 +1015,20 @@ def _run(ctx, lean_ok):
         blowout_predicates(ctx, c, worst)
         if not (c.get('forced') or any(not math.isfinite(x) for x in c['nb0'])):
             add(c, [blowout_line(c)], lambda c, o: blowout_compare(c, o[0], worst))
+    # releases placed just above (and just below) the bubble-point depth, built-in size model
+    placed = []
+    for rep_ in range(ctx.n(1, 8)):
+        for ps in bubble_point_presets(ctx, r, profiles, [1e-4, 1e-3, 5e-3, 2e-2, 0.]):
+            c = blowout_case(ctx, r, profiles, 1000 + len(placed), None, None, preset=ps)
+            if c is None:
+                continue
+            placed.append(c)
+            blows.append(c)
+            ctx.count('blowout placed at the bubble point: void %s' % ('0 (just below)' if ps['placed']['target_void'] == 0. else '~%g' % ps['placed']['target_void']))
+            ctx.nontrivial.add(nontrivial_key(c))
+            blowout_predicates(ctx, c, worst)
+            if all(math.isfinite(x) for x in c['nb0']):
+                add(c, [blowout_line(c)], lambda c, o: blowout_compare(c, o[0], worst))
     if blows:
         c = blows[-1]
         ctx.sample({k: c[k] for k in ('kind', 'mode', 'z0', 'd0', 'composition', 'masses', 'q_oil', 'gor', 'mass_flux', 'd_gas',
@@ -990,6 +1072,8 @@ def _run(ctx, lean_ok):
     floor('blowouts judged with gas AND liquid bins', sum(1 for c in okb if c['d_gas'] and c['d_liq']), ctx.n(3, 30))
     floor('blowouts judged with GOR 0', sum(1 for c in okb if c['gor'] == 0.), ctx.n(2, 15))
     floor('blowouts judged with a user-supplied size distribution', sum(1 for c in okb if c['mode'] == 'user'), ctx.n(2, 20))
+    floor('blowouts judged with free gas at a void fraction in (0, 1 %) at the release (just above the bubble point, built-in size model)',
+          sum(1 for c in placed if 0. < c['placed']['void'] < 0.01 and all(math.isfinite(x) for x in c['nb0'])), ctx.n(3, 20))
     floor('first-element rows judged (particle lists)', sum(1 for c in rows if c.get('source') == 'particle list' and c['rec']), ctx.n(6, 80))
     floor('first-element rows judged (blowouts)', sum(1 for c in rows if c.get('source') == 'blowout' and c['rec']), ctx.n(2, 20))
 
